@@ -117,12 +117,39 @@ fn refine_case(label: &str, g: &Graph, faults: Vec<Fault>, api: Api, rng: &mut R
     };
     task.faults = faults;
     let stack = if rng.chance(1, 2) { STACK_SMALL } else { STACK_MAIN };
+    let mut fss = vec![g.fs.clone()];
+    let mut ex = ExecSpec::single(key(rng), stack, task);
+    // History: a quarter of the subjects run on a thread on which a compile has just failed
+    // *inside an included file* (missing nested include, a byte the lexer rejects, a macro with
+    // the wrong number of arguments), with tokens of that file still pending. What the model says
+    // about the subject does not depend on what the thread did before.
+    let mut h = rng.sub("history");
+    if h.chance(1, 4) {
+        let tail = ["#include \"missing.h\"", "@", "#define PF(a) a\npending PF(1,2) ;"][h.below(3) as usize];
+        let mut pfs = FsSpec::new(crate::simfs::Policy::Flat);
+        pfs.files.insert(
+            "main.rssl".into(),
+            "#define POISON 1\n#include \"poison.h\"\nafter_poison ;\n".into(),
+        );
+        pfs.files.insert(
+            "poison.h".into(),
+            format!("poison_a poison_b\n  poison_c (\n{tail}\nnever_reached ;\n"),
+        );
+        fss.push(pfs);
+        let mut pt = ex.threads[0].tasks[0].clone();
+        pt.fs = fss.len() - 1;
+        pt.entry = "main.rssl".into();
+        pt.faults.clear();
+        pt.defines.clear();
+        pt.subject = false;
+        ex.threads[0].tasks.insert(0, pt);
+    }
     Case {
         check: "C12".into(),
         kind: "refine".into(),
         label: label.to_string(),
-        fss: vec![g.fs.clone()],
-        execs: vec![ExecSpec::single(key(rng), stack, task)],
+        fss,
+        execs: vec![ex],
         params: Json::obj().with("mode", Json::s(&format!("{:?}", g.mode))),
     }
 }
@@ -371,7 +398,7 @@ fn scenario_digest(case: &Case) -> u64 {
     fnv64(
         Json::Arr(vec![
             Json::Arr(case.fss.iter().map(|f| f.to_json()).collect()),
-            case.execs[0].threads[0].tasks[0].to_json(),
+            case.execs[0].threads[0].tasks.last().map(|t| t.to_json()).unwrap_or(Json::Null),
         ])
         .dump()
         .as_bytes(),
@@ -380,12 +407,17 @@ fn scenario_digest(case: &Case) -> u64 {
 
 fn refine(case: &Case, rep: &mut Report) {
     let ex = &case.execs[0];
-    let task = &ex.threads[0].tasks[0];
+    // the subject is the last task of the thread (a failing predecessor may run before it)
+    let ti = ex.threads[0].tasks.len() - 1;
+    let task = &ex.threads[0].tasks[ti];
     let fs: &FsSpec = &case.fss[task.fs];
     let res = run_exec(ex, &case.fss);
     rep.history_digests.insert(res.history_digest);
-    let r = &res.results[0][0];
+    let r = &res.results[0][ti];
     rep.absorb_task(r);
+    if ti > 0 {
+        rep.count("subjects_run_after_a_compile_that_failed_inside_an_include", 1);
+    }
     let digest = scenario_digest(case);
     rep.scenario_digests.insert(digest);
 
